@@ -12,6 +12,8 @@ type ProjectionPlan struct {
 	FieldNames []string
 	FieldTypes []Type
 	Fields     []Expression
+	// namedFields[i] tells whether field i is the first field of its name
+	namedFields []bool
 }
 
 func (p *ProjectionPlan) Init() error {
@@ -70,12 +72,17 @@ func (p *ProjectionPlan) Batch(ctx *ExecuteCtx) ([][]Column, error) {
 // name resolves to the first field that carries it, so only that field may
 // take the result that is cached under the name.
 func (p *ProjectionPlan) isNamedField(i int) bool {
-	for j := 0; j < i; j++ {
-		if p.FieldNames[j] == p.FieldNames[i] {
-			return false
+	if p.namedFields == nil {
+		// Computed once, not for every row
+		seen := make(map[string]struct{}, len(p.FieldNames))
+		p.namedFields = make([]bool, len(p.FieldNames))
+		for j, name := range p.FieldNames {
+			_, have := seen[name]
+			p.namedFields[j] = !have
+			seen[name] = struct{}{}
 		}
 	}
-	return true
+	return p.namedFields[i]
 }
 
 func (p *ProjectionPlan) processProjectionBatch(chunk []KVPair, ctx *ExecuteCtx) ([][]Column, error) {
